@@ -1,6 +1,7 @@
 //! Family I: selector enumeration. Every sequence of selected values over {0,1,2} up to length 9 is
 //! fed to a real SelectorSubscriber; callbacks must be the sequence with consecutive duplicates
-//! removed, each with the action that caused it. Feeds C16.
+//! removed, each with the action that caused it; the same with an output type whose equality is a
+//! tolerance comparison (not transitive). Feeds C16.
 
 use crate::hist::*;
 use crate::json::J;
@@ -16,6 +17,7 @@ pub fn run(index: u64, tiny: bool) -> Outcome {
     let mut v = Verdicts::default();
     v.evaluated.insert("C16");
     let mut with_repeat_and_change = 0u64;
+    let mut drifting = 0u64;
     let mut first_bad: Option<String> = None;
     let mut sample = Vec::new();
     for n in 0..total {
@@ -39,6 +41,29 @@ pub fn run(index: u64, tiny: bool) -> Outcome {
                 exp.push((*val, act.id));
             }
         }
+        // the same sequence through an output type with a tolerance equality (0~1, 1~2, 0!~2): a value is
+        // delivered exactly when it differs from the value last *delivered*
+        let gotn: Arc<Mutex<Vec<(u8, u32)>>> = Arc::new(Mutex::new(Vec::new()));
+        let g3 = gotn.clone();
+        let subn = SelectorSubscriber::new(NearSelector, move |val: Near, a: Act| g3.lock().unwrap().push((val.0, a.id)));
+        let mut stn = St::initial(0);
+        let mut expn: Vec<(u8, u32)> = Vec::new();
+        for (k, val) in seq.iter().enumerate() {
+            let act = Act { id: act_id(0, 1, k as u32 + 1), script: 0 };
+            stn.sel = *val;
+            stn.steps += 1;
+            <SelectorSubscriber<St, Act, NearSelector, Near> as Subscriber<St, Act>>::on_notify(&subn, &stn, &act);
+            if expn.last().map(|l| Near(l.0) != Near(*val)).unwrap_or(true) {
+                expn.push((*val, act.id));
+            }
+        }
+        let gotn = gotn.lock().unwrap().clone();
+        if gotn != expn && first_bad.is_none() {
+            first_bad = Some(format!("selected values {:?} with a tolerance equality (|a-b| <= 1): callbacks (value, action#) {:?}, expected {:?}", seq, gotn.iter().map(|x| (x.0, id_seq(x.1))).collect::<Vec<_>>(), expn.iter().map(|x| (x.0, id_seq(x.1))).collect::<Vec<_>>()));
+        }
+        if seq.windows(3).any(|w| w == [0, 1, 2] || w == [2, 1, 0]) {
+            drifting += 1;
+        }
         let got = got.lock().unwrap().clone();
         if got != exp && first_bad.is_none() {
             first_bad = Some(format!("selected values {:?}: callbacks (value, action#) {:?}, expected {:?}", seq, got.iter().map(|x| (x.0, id_seq(x.1))).collect::<Vec<_>>(), exp.iter().map(|x| (x.0, id_seq(x.1))).collect::<Vec<_>>()));
@@ -57,6 +82,7 @@ pub fn run(index: u64, tiny: bool) -> Outcome {
     }
     v.count("c16.enumerated_sequences", total);
     v.count("c16.enumerated_with_repeat_and_change", with_repeat_and_change);
+    v.count("c16.enumerated_drifting_under_tolerance_equality", drifting);
     if with_repeat_and_change > 0 || len <= 2 {
         v.nontrivial.insert("C16");
     }
